@@ -61,7 +61,7 @@ structure RTags where
 
 def runReaderCase (line : String) : String × String :=
   let fs := fields line
-  let src : Source := { pre := unhex (field fs "pre"), data := dataField (field fs "d"),
+  let src : Source := { pre := dataField (field fs "pre"), data := dataField (field fs "d"),
                         fault := fieldNat fs "f" == 1, sched := parseSched (field fs "s") }
   let r0 := (Reader.mk' src).setChunkSize (fieldNat fs "c")
   let ops := parseROps (field fs "o")
